@@ -795,6 +795,14 @@ impl SvgElement {
         if let Some(h) = self.attrs.get("height").filter(|h| !plain_svg_length(h)) {
             height = Some(strp(h)?);
         }
+        // (the same holds for a radius or the ends of a line)
+        let number = |name: &str| -> Result<Option<f32>> {
+            self.attrs
+                .get(name)
+                .filter(|v| !plain_svg_length(v))
+                .map(|v| strp(v))
+                .transpose()
+        };
         match self.name.as_str() {
             "use" | "reuse" => {
                 let target_el = self.get_target_element(ctx)?;
@@ -824,14 +832,14 @@ impl SvgElement {
                 height = Some(0.);
             }
             "circle" => {
-                if let Some(r) = self.attrs.get("r").map(|n| strp(n)).transpose()? {
+                if let Some(r) = number("r")? {
                     width = Some(r * 2.0);
                     height = Some(r * 2.0);
                 }
             }
             "ellipse" => {
-                let rx = self.attrs.get("rx").map(|n| strp(n)).transpose()?;
-                let ry = self.attrs.get("ry").map(|n| strp(n)).transpose()?;
+                let rx = number("rx")?;
+                let ry = number("ry")?;
                 if let Some(rx) = rx {
                     width = Some(rx * 2.0);
                 }
@@ -840,13 +848,13 @@ impl SvgElement {
                 }
             }
             "line" => {
-                let x1 = self.attrs.get("x1").map(|n| strp(n)).transpose()?;
-                let x2 = self.attrs.get("x2").map(|n| strp(n)).transpose()?;
+                let x1 = number("x1")?;
+                let x2 = number("x2")?;
                 if let (Some(x1), Some(x2)) = (x1, x2) {
                     width = Some((x2 - x1).abs());
                 }
-                let y1 = self.attrs.get("y1").map(|n| strp(n)).transpose()?;
-                let y2 = self.attrs.get("y2").map(|n| strp(n)).transpose()?;
+                let y1 = number("y1")?;
+                let y2 = number("y2")?;
                 if let (Some(y1), Some(y2)) = (y1, y2) {
                     height = Some((y2 - y1).abs());
                 }
